@@ -158,7 +158,10 @@ class USBSignalInEndpoint(Elaboratable):
             with m.State("WAIT_FOR_ACK"):
 
                 # If the host does ACK, we're done! Move back to our idle state.
-                with m.If(self.interface.handshakes_in.ack):
+                # Host handshakes are broadcast to every endpoint; only an ACK that follows an IN token
+                # addressed to this endpoint acknowledges our packet. (A token for another device clears
+                # the tokenizer's PID without strobing `new_token`.)
+                with m.If(self.interface.handshakes_in.ack & targeting_endpoint):
                     m.d.comb += self.status_read_complete.eq(1)
                     m.d.usb += self.interface.tx_pid_toggle[0].eq(~self.interface.tx_pid_toggle[0])
                     m.next = "IDLE"
